@@ -6,7 +6,7 @@ import vlib
 
 def run(tier, seed):
     chk = vlib.Check("C16", tier, seed)
-    pool = 150 if tier == "quick" else 420
+    pool = 150 if tier == "quick" else 700
     cases = []
     for fl in ("asan", "asan-ndebug"):   # both lp_msg layouts (debug fields present / absent)
         exe = vlib.build_engine("order", [os.path.join(vlib.VERIF, "engines", "order.c")], flavour=fl, link_core=False)
